@@ -336,6 +336,12 @@ pub fn gen_cfg_for(prop: &str, rng: &mut Rng, thorough: bool) -> GenCfg {
             // the reported tag must be the one of the place used: half of the problems tag the places of multi-place tasks
             // sparsely (an untagged place in front of a tagged one), which no reader of the solution needs to be dense
             cfg.sparse_place_tags = rng.chance(0.5);
+            // recharge stations: O1 does not recompute their times from the matrices, but the statistic of such a tour must still
+            // agree with the stops and activities the tour itself reports (weak rules W1-W4 of O1). Required breaks stay outside
+            // this workload: a probe with them (2026-09-29) showed that the writer of reserved times (break_writer.rs) reports a
+            // break in the statistic which the tour does not show (break moved to the previous stop, break during the last
+            // activity of an open tour), see DESIGN.md C03 "Bound"
+            cfg.p_recharge = 0.06;
         }
         _ => {}
     }
